@@ -225,6 +225,9 @@ def _conc_args(ex, args, st):
 def call_builtin(ex, name: str, args, kwargs, st: State, node) -> Term:
     A = args
     n = len(A)
+    if name == "slice" and not kwargs and 1 <= n <= 3:
+        # slice(stop) / slice(start, stop[, step]): the object x[a:b:c] builds implicitly
+        return mk("sliceobj", *((NONE, A[0], NONE) if n == 1 else (A[0], A[1], A[2] if n == 3 else NONE)))
     # ---- concrete folding for a whitelist of pure builtins
     if name in ("len", "int", "bytes", "tuple", "str", "bool", "min", "max", "abs", "sum", "ord", "chr", "hex", "divmod", "pow", "sorted", "float", "bin", "round", "repr", "any", "all") and not kwargs:
         try:
